@@ -344,3 +344,97 @@ theorem tocoo_get (g : GCXS Int) (c : List Nat) (hc : g.caxes = some c) (hwf : g
 
 end GCXS
 end SparseV
+
+/-! ### assembling a CSR triple from a list of rows (what every kernel does: `indptr[i+1] = indptr[i] + len(row i)`) -/
+namespace SparseV
+open COO GIx
+namespace GIx
+
+theorem cumLens_length : ∀ (lens : List Nat) (acc : Nat), (cumLens acc lens).length = lens.length
+  | [], _ => rfl
+  | n :: ns, acc => by simp [cumLens, cumLens_length ns]
+
+theorem ptr_getD : ∀ (lens : List Nat) (acc r : Nat), r ≤ lens.length →
+    (acc :: cumLens acc lens).getD r 0 = acc + (lens.take r).sum
+  | _, _, 0, _ => by simp
+  | [], _, r + 1, h => by simp at h
+  | n :: ns, acc, r + 1, h => by
+    rw [List.getD_cons_succ]
+    simp only [cumLens]
+    rw [ptr_getD ns (acc + n) r (by simpa using h)]
+    simp [Nat.add_assoc]
+
+theorem sum_take_succ : ∀ (lens : List Nat) (r : Nat) (h : r < lens.length),
+    (lens.take (r + 1)).sum = (lens.take r).sum + lens[r]
+  | n :: ns, 0, _ => by simp
+  | n :: ns, r + 1, h => by
+    simp only [List.take_succ_cons, List.sum_cons, List.getElem_cons_succ]
+    rw [sum_take_succ ns r (by simpa using h)]
+    omega
+
+theorem rowSlice_flatten {β : Type} : ∀ (F : List (List β)) (r : Nat) (h : r < F.length),
+    rowSlice F.flatten ((F.map List.length).take r).sum ((F.map List.length).take (r + 1)).sum = F[r]
+  | a :: F, 0, _ => by
+    simp only [List.map_cons, List.take_zero, List.sum_nil, List.take_succ_cons, List.sum_cons, Nat.add_zero,
+      List.flatten_cons, List.getElem_cons_zero, rowSlice, List.drop_zero]
+    exact List.take_left' rfl
+  | a :: F, r + 1, h => by
+    simp only [List.map_cons, List.take_succ_cons, List.sum_cons, List.flatten_cons, List.getElem_cons_succ, rowSlice]
+    rw [List.take_length_add_append, List.drop_length_add_append]
+    exact rowSlice_flatten F r (by simpa using h)
+
+theorem zip_map_fst_snd {β γ : Type} : ∀ (l : List (β × γ)), (l.map (·.1)).zip (l.map (·.2)) = l
+  | [] => rfl
+  | a :: l => by simp [zip_map_fst_snd l]
+
+/-- the triple assembled from rows with strictly increasing in-range column numbers is a well-formed CSR triple whose
+rows are the given ones -/
+theorem fromRows_csr (rws : List (List (Nat × Int))) (C : Nat)
+    (h1 : ∀ row ∈ rws, (row.map (·.1)).Pairwise (· < ·)) (h2 : ∀ row ∈ rws, ∀ e ∈ row, e.1 < C) :
+    CsrWF rws.length C (0 :: cumLens 0 (rws.map List.length)) (rws.flatten.map (·.1)) (rws.flatten.map (·.2)).length ∧
+    ∀ r (hr : r < rws.length),
+      csrRow (0 :: cumLens 0 (rws.map List.length)) (rws.flatten.map (·.1)) (rws.flatten.map (·.2)) r = rws[r] := by
+  have hp : ∀ r, r ≤ rws.length → (0 :: cumLens 0 (rws.map List.length)).getD r 0 = ((rws.map List.length).take r).sum := by
+    intro r hr
+    rw [ptr_getD _ 0 r (by simpa using hr), Nat.zero_add]
+  have hfst : ∀ r (hr : r < rws.length), rowSlice (rws.flatten.map (·.1))
+      ((0 :: cumLens 0 (rws.map List.length)).getD r 0) ((0 :: cumLens 0 (rws.map List.length)).getD (r + 1) 0)
+      = rws[r].map (·.1) := by
+    intro r hr
+    rw [hp r (by omega), hp (r + 1) (by omega), List.map_flatten]
+    have := rowSlice_flatten (rws.map (List.map (·.1))) r (by simpa using hr)
+    simp only [List.map_map, List.getElem_map] at this
+    have hl : (List.length ∘ List.map (fun x : Nat × Int => x.1)) = List.length := by
+      funext l; simp
+    rw [hl] at this
+    exact this
+  have hsnd : ∀ r (hr : r < rws.length), rowSlice (rws.flatten.map (·.2))
+      ((0 :: cumLens 0 (rws.map List.length)).getD r 0) ((0 :: cumLens 0 (rws.map List.length)).getD (r + 1) 0)
+      = rws[r].map (·.2) := by
+    intro r hr
+    rw [hp r (by omega), hp (r + 1) (by omega), List.map_flatten]
+    have := rowSlice_flatten (rws.map (List.map (·.2))) r (by simpa using hr)
+    simp only [List.map_map, List.getElem_map] at this
+    have hl : (List.length ∘ List.map (fun x : Nat × Int => x.2)) = List.length := by
+      funext l; simp
+    rw [hl] at this
+    exact this
+  refine ⟨⟨by simp [cumLens_length], by simp, ?_, by simp only [List.length_map], ?_, ?_, ?_⟩, ?_⟩
+  · rw [hp _ (Nat.le_refl _), List.take_of_length_le (by simp), List.length_map, List.length_flatten]
+  · intro r hr
+    rw [hp r (by omega), hp (r + 1) (by omega), sum_take_succ _ r (by simpa using hr)]
+    omega
+  · intro r hr
+    rw [hfst r hr]
+    exact h1 _ (List.getElem_mem hr)
+  · intro c hc
+    obtain ⟨e, he, rfl⟩ := List.mem_map.mp hc
+    obtain ⟨row, hrow, herow⟩ := List.mem_flatten.mp he
+    exact h2 row hrow e herow
+  · intro r hr
+    unfold csrRow
+    rw [hfst r hr, hsnd r hr]
+    exact zip_map_fst_snd _
+
+end GIx
+end SparseV
